@@ -303,4 +303,141 @@ theorem setAt_at : ∀ (p : List String) (g h : Grp) (name : String) (v : Val), 
           setAtF_spec name v k p (fun g h hh => setAt_at p g h name v hh) fs w h hgk hat
         exact ⟨.mk i fs', by simp [Grp.setAt, e1], by simp [Grp.at, Grp.get, Grp.fields, e2, e3]⟩
 
+/-- Every nested group, at any depth, that declares `name` holds the assigned value afterwards. -/
+theorem at_set_declared (g h : Grp) (p : List String) (name : String) (v : Val)
+    (hi : g.allInit = true) (hp : name ∉ p) (hat : g.at p = some (.grp h)) (hd : h.declares name = true) :
+    (g.set name v).at (p ++ [name]) = some v := by
+  induction p generalizing g with
+  | nil =>
+    simp only [Grp.at, Option.some.injEq, Val.grp.injEq] at hat
+    subst hat
+    obtain ⟨hi1, _⟩ := (Grp.allInit_iff g).1 hi
+    have : (g.set name v).get name = some v := by
+      rw [Grp.set_init g hi1]; exact get_setF_same g.fields name v hd
+    cases v with
+    | atom a => simp [Grp.at, this]
+    | grp w => simp [Grp.at, this]
+  | cons k p ih =>
+    have hk : k ≠ name := fun e => hp (by simp [e])
+    have hp' : name ∉ p := fun e => hp (by simp [e])
+    obtain ⟨hi1, hi2⟩ := (Grp.allInit_iff g).1 hi
+    have hget : (g.set name v).get k = (g.get k).map (Val.set name v) := by
+      rw [Grp.set_init g hi1]; exact get_setF_other g.fields name k v hk
+    cases hgk : g.get k with
+    | none => simp [Grp.at, hgk] at hat
+    | some x =>
+      cases x with
+      | atom a =>
+        simp only [Grp.at, hgk] at hat
+        split at hat <;> simp at hat
+      | grp w =>
+        simp only [Grp.at, hgk] at hat
+        have hw : w.allInit = true := allInit_get g.fields k w hi2 hgk
+        have := ih w hw hp' hat
+        simpa [Grp.at, hget, hgk, Val.set] using this
+
+/-- A nested group that does not declare `name` does not acquire it. -/
+theorem at_set_undeclared (g h : Grp) (p : List String) (name : String) (v : Val)
+    (hi : g.allInit = true) (hp : name ∉ p) (hat : g.at p = some (.grp h)) (hd : h.declares name = false) :
+    (g.set name v).at (p ++ [name]) = none := by
+  induction p generalizing g with
+  | nil =>
+    simp only [Grp.at, Option.some.injEq, Val.grp.injEq] at hat
+    subst hat
+    obtain ⟨hi1, _⟩ := (Grp.allInit_iff g).1 hi
+    have : (g.set name v).get name = none := by
+      rw [Grp.set_init g hi1]; exact get_setF_undeclared g.fields name v hd
+    simp [Grp.at, this]
+  | cons k p ih =>
+    have hk : k ≠ name := fun e => hp (by simp [e])
+    have hp' : name ∉ p := fun e => hp (by simp [e])
+    obtain ⟨hi1, hi2⟩ := (Grp.allInit_iff g).1 hi
+    have hget : (g.set name v).get k = (g.get k).map (Val.set name v) := by
+      rw [Grp.set_init g hi1]; exact get_setF_other g.fields name k v hk
+    cases hgk : g.get k with
+    | none => simp [Grp.at, hgk] at hat
+    | some x =>
+      cases x with
+      | atom a =>
+        simp only [Grp.at, hgk] at hat
+        split at hat <;> simp at hat
+      | grp w =>
+        simp only [Grp.at, hgk] at hat
+        have hw : w.allInit = true := allInit_get g.fields k w hi2 hgk
+        have := ih w hw hp' hat
+        simpa [Grp.at, hget, hgk, Val.set] using this
+
+/-- A path with one more step: what the group at the path holds under the last key. -/
+theorem at_snoc : ∀ (p : List String) (g : Grp) (k : String),
+    g.at (p ++ [k]) = match g.at p with
+      | some (.grp h) => h.get k
+      | _ => none
+  | [], g, k => by
+    simp only [List.nil_append, Grp.at]
+    cases hg : g.get k with
+    | none => rfl
+    | some x => cases x <;> simp
+  | k' :: p, g, k => by
+    simp only [List.cons_append, Grp.at]
+    cases hg : g.get k' with
+    | none => rfl
+    | some x =>
+      cases x with
+      | atom a => by_cases hp : p.isEmpty = true <;> simp [hp]
+      | grp h => simpa using at_snoc p h k
+
+/-- If something is found under `p ++ [k]`, the path `p` leads to a group that declares `k`. -/
+theorem at_snoc_some (p : List String) (g : Grp) (k : String) (x : Val) (h : g.at (p ++ [k]) = some x) :
+    ∃ w, g.at p = some (.grp w) ∧ w.declares k = true := by
+  rw [at_snoc] at h
+  cases hp : g.at p with
+  | none => simp [hp] at h
+  | some y =>
+    cases y with
+    | atom a => simp [hp] at h
+    | grp w =>
+      simp only [hp] at h
+      exact ⟨w, rfl, (declares_iff_get w.fields k).2 (by simp [Grp.get] at h; simp [h])⟩
+
+/-- After `g.time_begin = tb; g.time_end = te` on a fully initialised tree: reads below a path that avoids both
+    names give the old plain value for every other field, and `tb` / `te` wherever the window was declared. -/
+theorem window_reads (g : Grp) (hi : g.allInit = true) (p : List String) (atb ate : String)
+    (hp1 : "time_begin" ∉ p) (hp2 : "time_end" ∉ p) :
+    let g' := (g.set "time_begin" (.atom atb)).set "time_end" (.atom ate)
+    (∀ k a, k ≠ "time_begin" → k ≠ "time_end" → (g'.at (p ++ [k]) = some (.atom a) ↔ g.at (p ++ [k]) = some (.atom a))) ∧
+    (∀ x, g.at (p ++ ["time_begin"]) = some x → g'.at (p ++ ["time_begin"]) = some (.atom atb)) ∧
+    (∀ x, g.at (p ++ ["time_end"]) = some x → g'.at (p ++ ["time_end"]) = some (.atom ate)) := by
+  intro g'
+  have hi' : (g.set "time_begin" (.atom atb)).allInit = true := set_allInit g _ _ hi (by simp [Val.allInit])
+  refine ⟨fun k a h1 h2 => ?_, fun x hx => ?_, fun x hx => ?_⟩
+  · have hq1 : "time_begin" ∉ p ++ [k] := by
+      simp only [List.mem_append, List.mem_singleton, not_or]; exact ⟨hp1, fun e => h1 e.symm⟩
+    have hq2 : "time_end" ∉ p ++ [k] := by
+      simp only [List.mem_append, List.mem_singleton, not_or]; exact ⟨hp2, fun e => h2 e.symm⟩
+    show ((g.set "time_begin" (.atom atb)).set "time_end" (.atom ate)).at (p ++ [k]) = _ ↔ _
+    rw [at_set_other _ _ _ _ hi' hq2, at_set_other _ _ _ _ hi hq1]
+    cases hg : g.at (p ++ [k]) with
+    | none => simp
+    | some y => cases y <;> simp [Val.set]
+  · obtain ⟨w, hw, hd⟩ := at_snoc_some p g _ x hx
+    have h1 := at_set_declared g w p "time_begin" (.atom atb) hi hp1 hw hd
+    have hq : "time_end" ∉ p ++ ["time_begin"] := by
+      simp only [List.mem_append, List.mem_singleton, not_or]; exact ⟨hp2, by decide⟩
+    show ((g.set "time_begin" (.atom atb)).set "time_end" (.atom ate)).at _ = _
+    rw [at_set_other _ _ _ _ hi' hq, h1]; rfl
+  · obtain ⟨w, hw, hd⟩ := at_snoc_some p g _ x hx
+    have hw' : (g.set "time_begin" (.atom atb)).at p = some (.grp (w.set "time_begin" (.atom atb))) := by
+      rw [at_set_other p g _ _ hi hp1, hw]; rfl
+    exact at_set_declared _ _ p "time_end" (.atom ate) hi' hp2 hw' (by rw [declares_set]; exact hd)
+
+/-- Under `okFor` (or when nothing stores the value) Python's assignment is the tree function. -/
+theorem setPy_ok (g : Grp) (name : String) (v : Val) (h : v.okFor name = true) :
+    g.setPy name v = .ok (g.set name v) := by
+  simp [Grp.setPy, h]
+
+/-- One re-assignment of `__post_init__` on a fully initialised tree that holds an atom under `name`. -/
+theorem reassign_ok (g : Grp) (name a : String) (hg : g.get name = some (.atom a)) :
+    g.reassign name = .ok (g.set name (.atom a)) := by
+  simp [Grp.reassign, hg]
+
 end CR.Params
